@@ -166,7 +166,7 @@ Definition imul (h : ah) (c : Qc) (k : scalar_kind) : result ah :=
   | Some d =>
       let h1 := coerce h d in
       let f := map (Qcmult c) (ah_freq h1) in
-      if negb (nonneg f) then Err EValue else
+      if Qcltb c 0 || negb (nonneg f) then Err EValue else      (* a negative factor is refused whatever the contents *)
       Ok (mkAh (ah_axes h1) f (map (Qcmult (c * c)) (ah_err2 h1)) (map (xscale c) (ah_missed h1)) (ah_dt h1)
                (option_map (fun s => stats_mul s c) (ah_stats h1)) (ah_keep h1))
   end.
@@ -177,7 +177,7 @@ Definition itruediv (h : ah) (c : Qc) (k : scalar_kind) : result ah :=
   | Some _ =>
       let h1 := coerce h F64 in
       let f := map (fun x => x / c) (ah_freq h1) in
-      if negb (nonneg f) then Err EValue else
+      if Qcltb c 0 || negb (nonneg f) then Err EValue else      (* a negative factor is refused whatever the contents *)
       Ok (mkAh (ah_axes h1) f (map (fun x => x / (c * c)) (ah_err2 h1)) (map (xscale (/ c)) (ah_missed h1)) (ah_dt h1)
                (option_map (fun s => stats_mul s (/ c)) (ah_stats h1)) (ah_keep h1))
   end.
